@@ -97,6 +97,20 @@ class PairsIterable:
         return iter(self.pairs)
 
 
+class RaisingIter:
+    """A header stream that fails when walked (the connection is gone)."""
+
+    def __iter__(self):
+        raise RuntimeError("stream closed")
+
+
+class IndexOnly:
+    """A wrapper that only supports indexing by header name: iterating it asks for item 0 and gets KeyError."""
+
+    def __getitem__(self, k):
+        raise KeyError(k)
+
+
 class RaisingGet:
     def get(self, k, default=None):
         raise RuntimeError("headers unavailable")
@@ -154,6 +168,10 @@ def mk_exc(value, shape, casing, where, status=429):
         h = {"Content-Type": "x", key: value}.items()  # pairs, iterable any number of times, but not a Sequence
     elif shape == "iterable":
         h = PairsIterable([("Content-Type", "x"), (key, value)])
+    elif shape == "raisingiter":
+        h = RaisingIter()
+    elif shape == "keyerrorseq":
+        h = IndexOnly()
     elif shape == "setpairs":
         try:
             h = frozenset([("Content-Type", "x"), (key, value)])
@@ -175,7 +193,7 @@ def mk_exc(value, shape, casing, where, status=429):
     return e, found
 
 
-SHAPES = ["dict", "dict+noise", "mapsub", "getonly", "getitems", "pairs", "tuplepairs", "nonpairs", "raisingget", "itemsview", "iterable", "setpairs"]
+SHAPES = ["dict", "dict+noise", "mapsub", "getonly", "getitems", "pairs", "tuplepairs", "nonpairs", "raisingget", "itemsview", "iterable", "setpairs", "raisingiter", "keyerrorseq"]
 
 
 def classify_value(v):
@@ -438,9 +456,11 @@ def work(ctx, tier):
     for i in range((300 if tier == "quick" else 6000) // ctx.nshards):
         useless = rng.choice(["", " ", "soon", "1.5", "None", "n/a", "\t", "--"])
         secs = rng.choice([0, 1, 7, 120, 86400])
-        shape = rng.choice([s_ for s_ in SHAPES if s_ not in ("nonpairs", "raisingget", "getonly")])
+        shape = rng.choice(SHAPES)
         casing, where = rng.choice(CASINGS), rng.choice(["headers", "response"])
-        e, _ = mk_exc(str(secs), shape, casing, where)
+        e, found_ = mk_exc(str(secs), shape, casing, where)
+        if found_ != "yes":
+            continue  # a container the lookup cannot be expected to read
         e.retry_after = useless
         case = {"retry_after_attribute": useless, "header_value": str(secs), "shape": shape, "casing": casing, "where": where, "tag": "useless-attribute+valid-header"}
         ctx.cnt["classifier_calls"] += 1
@@ -674,6 +694,16 @@ def _end_to_end(ctx, viol, rng, i):
                     raise AssertionError("unexpected suspension")
                 except StopIteration:
                     pass
+            elif i % 5 == 2:
+                # no sleeper of the caller's: the library's default blocking sleep (time.sleep, interposed) is what waits out the hint
+                dtrace = []
+                world.trace, world.call_t0 = dtrace, t0
+                try:
+                    Retry(classifier=http_retry_after_classifier, deadline_s=deadline, max_attempts=5, **skw).call(op_body)
+                finally:
+                    world.trace = None
+                    sleeps.extend((e_[1], e_[2]) for e_ in dtrace if e_[0] == "dsleep")
+                    ctx.cnt["end_to_end_runs_on_the_default_sleeper"] += 1
             else:
                 def sl(s):
                     sleeps.append((s, world.t - t0))
